@@ -127,18 +127,17 @@ func NewEnvManager(tm *task.Manager, incomingEventCh chan event.Event) *Manager 
 					// If we got a TasksReleasedEvent, it must be matched with a pending
 					// environment teardown.
 
-					instance.mu.RLock()
+					// The registration is consumed before the event is handed over: the teardown
+					// goroutine registers a new channel under the same id as soon as it has
+					// received the event, and that second registration must not be deleted here.
+					instance.mu.Lock()
 					thisEnvCh, ok := instance.pendingTeardownsCh[typedEvent.GetEnvironmentId()]
-					instance.mu.RUnlock()
+					delete(instance.pendingTeardownsCh, typedEvent.GetEnvironmentId())
+					instance.mu.Unlock()
 
 					if ok {
 						thisEnvCh <- typedEvent
-
-						instance.mu.Lock()
 						close(thisEnvCh)
-						delete(instance.pendingTeardownsCh, typedEvent.GetEnvironmentId())
-						instance.mu.Unlock()
-
 					} else {
 						// If there is no pending environment teardown, it means that the released task stopped
 						// unexpectedly. In that case, the environment should get torn-down only if the task
